@@ -29,7 +29,7 @@ META = dict(
          'and equivalence decided; distinct by label',
     bounds='model kinds ro/dro, 4 interleaving patterns (declarations, sets, do_math, solve interleaved), models with 2-3 '
            'variables and box / 1-norm sets; 14 misuse patterns x kinds',
-    outside='more than two models at once; interference through third-party solver state',
+    outside='more than two models at once; interference through third-party solver state other than the options RSOME itself passes on (params=)',
     assumptions=['built alone = built in the same process before any other model exists (fresh interpreter per worker)'],
 )
 
@@ -109,12 +109,15 @@ def cases(tier, seed, rnd):
         for pat in PATTERNS:
             cs.append(dict(k='pair', ka=ka, kb=kb, pat=pat))
     cs.append(dict(k='misuse'))
+    cs.append(dict(k='params'))
     return cs
 
 
 def run_case(case, ses):
     if case['k'] == 'misuse':
         return run_misuse(ses)
+    if case['k'] == 'params':
+        return run_params(ses)
     z3 = z3mod()
     ka, kb, pat = case['ka'], case['kb'], case['pat']
     # alone
@@ -402,6 +405,12 @@ def run_misuse(ses):
         x = m.dvar(2)
         m.st(x.sum())
     tests.append(('ro st() of an expression that is not a constraint', t_unknown_constr))
+    for kind in ('ro', 'dro'):
+        for vt in ('CX', 'CD', 'X', '', 'IB?'):
+            def t_vtype(kind=kind, vt=vt):
+                m = ro.Model() if kind == 'ro' else dro.Model(2)
+                m.dvar(len(vt) if len(vt) > 1 else 2, vt)
+            tests.append(('%s: dvar with the type string %r (letters other than C, B, I)' % (kind, vt), t_vtype))
     for tag, fn in tests:
         ses.stats.obligations += 1
         ses.stats.kinds['misuse-raises'] = ses.stats.kinds.get('misuse-raises', 0) + 1
@@ -425,8 +434,98 @@ def run_misuse(ses):
     ses.stats.programs += len(tests)
 
 
+# ------------------------------------------------------------------ solver options of one solve stay with that solve
+GRB_PARAMS = [dict(SolutionLimit=1), dict(MIPGap=0.9), dict(NodeLimit=0), dict(BestObjStop=0.0), dict(TimeLimit=1e-3),
+              dict(Cutoff=-1.0), dict(SolutionLimit=1, MIPGapAbs=100.0)]
+OTHER_PARAMS = [dict(SolutionLimit=1, TimeLimit=1e-3, MIPGap=0.9, max_iters=1, time_limit=1e-3, mip_rel_gap=0.9)]
+
+
+def knapsack(tag):
+    from rsome import ro
+    w = A([7, 11, 5, 13, 9, 6, 8, 12, 4, 10]) + (0 if tag == 'a' else 1)
+    v = A([13, 21, 8, 25, 16, 11, 15, 22, 7, 19]) + (0 if tag == 'a' else 2)
+    m = ro.Model()
+    x = m.dvar(10, 'B')
+    y = m.dvar(())
+    m.max(v @ x + 0.5 * y)
+    m.st(w @ x + y <= (41 if tag == 'a' else 37), y >= 0, y <= 1.5)
+    return m
+
+
+def run_params(ses):
+    """`solve(solver, params=...)` configures THAT solve only.  Model A (a mixed 0/1 knapsack) is solved with default
+    options, an unrelated model B with restrictive options, then A is built and solved again with default options: its result
+    must be the exact optimum of its compiled program (computed by z3 on the real `do_math()` output) - for every interface
+    that is installed, for every option set of the family; for Gurobi the process-wide default environment is compared
+    before / after as well."""
+    import importlib
+    P = CProg(knapsack('a').do_math())
+    vs = P.z3vars()
+    st_, exact = ses.optimum(P.constraints(vs), P.obj_term(vs), ints=P.int_vars(vs), label='params/exact')
+    if st_ != 'optimal':
+        raise HarnessError('C17 params layer: exact optimum of the knapsack is %s' % st_)
+    exact = float(exact)
+    interfaces = [('default', None, OTHER_PARAMS), ('ort', 'rsome.ort_solver', OTHER_PARAMS), ('grb', 'rsome.grb_solver', GRB_PARAMS)]
+    done = 0
+    for name, modname, family in interfaces:
+        if modname is None:
+            solver = None
+        else:
+            try:
+                solver = importlib.import_module(modname)
+            except Exception:
+                ses.stats.notes.append('params layer: interface %s is not installed' % name)
+                continue
+        gp = None
+        if name == 'grb':
+            import gurobipy as gp
+        for params in family:
+            label = 'params/%s/%s' % (name, ','.join('%s=%s' % kv for kv in sorted(params.items())))
+            ses.stats.obligations += 1
+            ses.stats.kinds['solver-options-do-not-leak'] = ses.stats.kinds.get('solver-options-do-not-leak', 0) + 1
+            before = {k: gp.getParamInfo(k)[2] for k in params} if gp is not None else {}
+            vals = []
+            try:
+                with quiet():
+                    a1 = knapsack('a')
+                    a1.solve(solver, display=False)
+                    vals.append(a1.get())
+                    b = knapsack('b')
+                    try:
+                        b.solve(solver, display=False, params=dict(params))
+                    except Exception:
+                        pass                    # B itself may fail under its own restrictive options: its own business
+                    a2 = knapsack('a')
+                    a2.solve(solver, display=False)
+                    vals.append(a2.get())
+            except Exception as e:
+                vals.append('raises %s: %s' % (type(e).__name__, str(e)[:80]))
+            after = {k: gp.getParamInfo(k)[2] for k in params} if gp is not None else {}
+            if gp is not None and after != before:
+                for k, v in before.items():
+                    gp.setParam(k, v)           # restore for the rest of the run
+                    gp.setParam('OutputFlag', 0)
+            ok = len(vals) == 2 and all(isinstance(v, float) or hasattr(v, '__float__') for v in vals) and \
+                all(abs(float(v) - (-exact)) <= 1e-6 * (1 + abs(exact)) for v in vals) and after == before
+            if ok:
+                ses.stats.discharged += 1
+                done += 1
+            else:
+                finding(ses, 'C17:params:%s' % name,
+                        '%s: model A solved with default options before / after an unrelated solve with params=%s returns %s; exact '
+                        'optimum of its compiled program %s; process-wide solver defaults before %s, after %s'
+                        % (label, params, vals, -exact, before, after), dict(case=dict(k='params'), tag=label), 'rsv.props.c17:replay')
+    if done:
+        ses.stats.nontrivial.add('params')
+    ses.stats.programs += 1
+
+
 def replay(data, verbose=False):
     case = data['case']
+    if case.get('k') == 'params':
+        if verbose:
+            print('solver options leak between models:', data['tag'])
+        return True
     if case.get('k') == 'misuse':
         if verbose:
             print('misuse accepted silently:', data['tag'])
